@@ -14,13 +14,8 @@ class ExprArraySubscriptModel(ExprModel):
         self.rhs = rhs
         
     def build(self, btor, ctx_width=-1):
-        index = int(self.rhs.val())
-        if isinstance(self.lhs, ExprFieldRefModel):
-            fm = self.lhs.fm.field_l[index]
-            return fm.build(btor)
-        else:
-            # TODO: support array slicing
-            raise NotImplementedError("Cannot subscript an lvalue of type " + str(type(self.lhs)))
+        # The list may be named directly or through the element of an object list
+        return self.subscript().build(btor)
         
     def subscript(self):
         from vsc.model.expr_indexed_field_ref_model import ExprIndexedFieldRefModel
@@ -39,37 +34,20 @@ class ExprArraySubscriptModel(ExprModel):
         
         
     def is_signed(self):
-        index = int(self.rhs.val())
-        if isinstance(self.lhs, ExprFieldRefModel):
-            return self.lhs.fm.field_l[index].is_signed
-        else:
-            # TODO: support array slicing
-            raise NotImplementedError("Cannot subscript an lvalue of type " + str(type(self.lhs)))
+        # The list may be named directly or through the element of an object list
+        return self.subscript().is_signed
         
     def width(self):
-        index = int(self.rhs.val())
-        if isinstance(self.lhs, ExprFieldRefModel):
-            return self.lhs.fm.field_l[index].width
-        else:
-            # TODO: support array slicing
-            raise NotImplementedError("Cannot subscript an lvalue of type " + str(type(self.lhs)))
+        # The list may be named directly or through the element of an object list
+        return self.subscript().width
         
     def accept(self, v):
         v.visit_expr_array_subscript(self)
         
     def val(self):
-        index = int(self.rhs.val())
-        if isinstance(self.lhs, ExprFieldRefModel):
-            return self.lhs.fm.field_l[index].val()
-        else:
-            # TODO: support array slicing
-            raise NotImplementedError("Cannot subscript an lvalue of type " + str(type(self.lhs)))
+        # The list may be named directly or through the element of an object list
+        return self.subscript().val()
         
     def getFieldModel(self):
-        index = int(self.rhs.val())
-        if isinstance(self.lhs, ExprFieldRefModel):
-            return self.lhs.fm.field_l[index]
-        else:
-            # TODO: support array slicing
-            raise NotImplementedError("Cannot subscript an lvalue of type " + str(type(self.lhs)))
+        return self.subscript()
         
